@@ -106,6 +106,8 @@ class World:
         self.key_kind = cfg.get('key', 'tz1')
         verify = self.key_kind != 'tz4' or cfg.get('verify_bls', False)
         self.node.add_account(pkh, counter=cfg.get('counter0', 10), key=pk if verify else None)
+        if cfg.get('key_revealed'):
+            self.node.accounts[pkh]['revealed'] = True  # a reveal of this key is refused (previously_revealed_key)
         for o in OTHERS:
             self.node.add_account(o, counter=5)
         self.node.contracts[KT_COUNTER] = {'code': COUNTER_CODE, 'storage': {'int': '0'}}
